@@ -44,7 +44,7 @@ def impl_history(case):
                 fh.write("features/F1.feature:3\n")
         hookfail = set(case.get("hookfail", []))
 
-        def run(locations):
+        def run(locations, dry=False):
             ran = []
             reg = StepRegistry()
 
@@ -62,7 +62,7 @@ def impl_history(case):
                 return impl
             for kind in ("pass", "fail", "error", "pending", "skip"):
                 reg.add_step_definition("step", "%s {n:d}" % kind, mk(kind))
-            config = Configuration(["--no-color"], load_config=False)
+            config = Configuration(["--no-color"] + (["--dry-run"] if dry else []), load_config=False)
             config.reporters = []
             with contextlib.redirect_stdout(io.StringIO()):
                 features = parse_features(locations)
@@ -80,7 +80,7 @@ def impl_history(case):
                         for f in features for s in f.walk_scenarios()]
             return ran, statuses
         locs1 = [FileLocation(os.path.join("features", n)) for n in case["order"]]
-        ran1, st1 = run(locs1)
+        ran1, st1 = run(locs1, dry=bool(case.get("dry_run")))
         exists = os.path.exists("rerun.txt")
         content = open("rerun.txt").read() if exists else None
         res = {"first": st1, "file_exists": exists, "content": content}
@@ -181,11 +181,15 @@ def suites(tier, seed):
                                             "hooks": ["before_scenario"], "faults": [], "hook_cleanups": [],
                                             "continue_after_failed": False}}
         names = [nm for nm, _s, _t in scenarios_of(prog)]
-        hooknames = [nm for nm in names if rnd.random() < 0.08] if i % 7 else []
+        if i % 5 == 2:
+            # the first run is a dry run: scenarios with an undefined step end in error, the others untested
+            prog["cfg"]["dry_run"] = True
+        hooknames = [nm for nm in names if rnd.random() < 0.08] if (i % 7 and i % 5 != 2) else []
         prog["cfg"]["faults"] = [["before_scenario", nm] for nm in hooknames]
         inv = {v: k for k, v in linemap.items()}
         hookfail = [inv[nm] for nm in hooknames if nm in inv]
-        cases.append({"files": files, "order": ["F%d.feature" % f["id"] for f in feats], "hookfail": hookfail, "linemap": linemap, "stale": (i % 7 == 0) or rnd.random() < 0.2, "prog": prog})
+        cases.append({"files": files, "order": ["F%d.feature" % f["id"] for f in feats], "hookfail": hookfail, "linemap": linemap, "stale": (i % 7 == 0) or rnd.random() < 0.2, "prog": prog,
+                      "dry_run": prog["cfg"]["dry_run"]})
     return [{"name": "histories", "cases": cases, "impl": impl_history, "oracle": oracle,
              "nontrivial": lambda c, o: o["file_exists"] and 0 < len([1 for x in o["first"] if x[2] in FAILING]) < len(o["first"]),
              "bound": "%d two-run histories over 1-3 files" % n,
